@@ -424,3 +424,54 @@ CHECKS["C03"] = {
         {"name": "TestRegression_.*", "quick": {}, "thorough": {}},
     ],
 }
+
+CHECKS["C04"] = {
+    "pkg": "./c04/",
+    "level": "exploration",
+    "technique": ("stateful property-based testing (rapid) of a complete in-process storage engine (sim/node): generated write/flush/rollup/reopen histories, "
+                  "reference-model oracle read directly from the target kv files with the metricsdata reader, crash images between the manifest commits of a rollup job, "
+                  "query-level cross-check through the production planner"),
+    "rule": ("case = database intervals (source 1..60 s dividing 5 min; month-type target 5/10/15/30 min and/or year-type target 1/2/3/4/6 h), 1-3 source families around boundary dates "
+             "(month ends, leap day, year end/start, 23:00 + next day 00:00), 1-3 metrics x 1-5 fields (sum/min/max/last/first, values k/8) x 1-5 series, sparse/dense/out-of-order slots with ms jitter, "
+             "history of write / flush(all|some families) / rollup(kv.VerifRollup per family | Store.ForceRollup) / reopen steps, optionally one crash image "
+             "(before the source commit, between the two target commits, before the first / between the reference clean-ups; 1 or 2 restarts, then rollup twice), up to 3 queries group by time(target). "
+             "After EVERY step all blocks of all families of all segments of each target interval must equal the field-type aggregate of exactly the points of the source files rolled up so far, "
+             "at the segment/family/slot computed with Go's calendar; after a rollup: source rollup files == files not yet rolled up, no target reference files. "
+             "non-trivial = some target slot is fed by >= 2 source slots and >= 2 source files were rolled up; distinct = hash of the complete plan (JSON)"),
+    "level_text": ("Generated-history exploration over the production flush and rollup code (kv family.rollup/doRollupWork, metricsdata merger, tsdb segment naming). Every written point is kept in a plain model; "
+                   "the oracle never uses lindb's interval calculators. 600 cases per quick run (about 2/3 non-trivial; both calculator pairs, two-target configurations, >= 2 target families/segments, "
+                   "rollup repeated, repeated after reopen, crash images of all four kinds each counted in the class histogram)."),
+    "level_note": ("Trusted: the metricsdata reader (C03), the metadata/index lookups used to map ids back to names (C09/C10), Go's time package, TZ=UTC. first/last are checked as membership in the contributed values "
+                   "(the merge order across source files is a map iteration order). Crash = process death (directory image), not power loss. "
+                   "TestObservation_CompactedSourceFile is informational: a source file compacted to level 1 before the rollup is skipped by doRollupWork yet marked as rolled up (outside the property's quantifier, which lists flush / rollup / reopen only)."),
+    "assumptions": ["targets are whole multiples of the source and divide 1 h or are multiples of 1 h (other values pass DatabaseOption.Validate but nothing documents them as supported; excluded as unsound input)",
+                    "source interval is day-type; month->year rollup and histogram fields are not generated",
+                    "source families are not compacted before the rollup in the asserted test",
+                    "after a restart the source families are reopened the way the next write does (Shard.GetOrCrateDataFamily), which also opens the target segments",
+                    "TZ=UTC"],
+    "tests": [
+        {"name": "TestRollup", "quick": 600, "thorough": {"checks": 4000, "shards": 16}},
+        {"name": "TestObservation_CompactedSourceFile", "quick": 40, "thorough": {"checks": 300, "shards": 1}},
+    ],
+}
+
+CHECKS["C07"] = {
+    "pkg": "./c07/",
+    "level": "fault_enumeration",
+    "technique": ("stateful property-based testing (rapid) on a complete in-process storage node (tsdb engine + WAL partition + production local replicator) with crash images of the whole node directory at every intercepted "
+                  "kv file-system operation and every WAL/consumer-group page store; recovery through the production open paths (tsdb.NewEngine, WriteAheadLogManager.Recovery, free-running replay); oracle through the production query path"),
+    "rule": ("history = log appends (entry i adds 4^i to one sum cell, so the base-4 digits of the stored sum count how often each entry was applied; every entry also writes a row that either introduces new metric/tag/field/series names "
+             "or re-uses names of an earlier entry), single local replication steps, flush cycles in production order (FlushMeta, FlushIndex, family.Flush) whose sub-steps interleave freely with appends/replication/log GC. "
+             "The history ends with the crash: sampled images (quick 5, thorough 30 per history, biased to flush/replication/GC windows) are recovered and replayed. Per image: log ack <= sequence stored with the flushed data; "
+             "every entry of the recovered log applied >= 1 times, entries at or below the stored sequence exactly once, nothing beyond the log; every entry's row is found by metric name + tag filter + group-by. "
+             "crash-point non-trivial = recovered image has entries above and below the persisted sequence; distinct = (history, image tag) hash"),
+    "level_text": ("Fault enumeration at file-system-operation / page-store granularity over generated histories of the real node: every crash point of a history is imaged, a generated sample is recovered with the production recovery code "
+                   "and checked end to end (log -> replay -> query)."),
+    "level_note": ("Process-crash model (directory image; mmap'd pages as stored). One shard, one data family, one leader. Known finding C07/name-created-inside-flush-cycle-persisted-with-data: replication steps that introduce new names "
+                   "are not taken inside a flush cycle while the finding is listed (steps that only write to existing series still race with the cycle)."),
+    "assumptions": ["crash = process death", "writes reach the family only through the local replicator (as in production)", "flush sub-steps in production order"],
+    "tests": [
+        {"name": "TestNodeCrashRecovery", "quick": {"checks": 8, "shards": 4}, "thorough": {"checks": 40, "shards": 16}},
+        {"name": "TestKnown_NameCreatedInsideFlushCycle", "quick": {}, "thorough": {}},
+    ],
+}
